@@ -312,7 +312,7 @@ class _Reporter(object):
 
 
 SEPARATORS = [" ", "\t", "  ", "\n", " \t "]
-TOKEN_ALPHABET = ["a", "b", " ", "\t", "'", '"', "\\", "-", "=", u"é"]
+TOKEN_ALPHABET = ["a", "b", " ", "\t", "'", '"', "\\", "-", "=", u"é", "\r", "\n"]  # (line breaks inside a quoted token are data)
 
 
 def _strings(alphabet, max_len, min_len=0):
